@@ -188,15 +188,17 @@ def judge_demorgan(acc, fxm, a, b, part):
     acc.outcome('demorgan_ok')
 
 
-def judge_history(acc, fxm, grow, part):
-    """~x at one word length, then the object (or a like= derivative) is widened, then ~ & | ^ again: results must be those of the new width"""
+def judge_history(acc, fxm, grow, part, resign=False):
+    """~x at one word length, then the object (or a like= derivative) changes format - widened by `grow` bits and / or (resign) given
+    the other signedness at the same fraction length - then ~ & | ^ again: results must be those of the new format.  A re-signed
+    object holds its old value saturated into the new range (C10), which is the code the expected patterns start from."""
     n = fxm.n_word
-    f2 = Fmt(fxm.signed, n + grow, fxm.n_frac)
+    f2 = Fmt((not fxm.signed) if resign else fxm.signed, n + grow, fxm.n_frac)
     for via in ('resize', 'like=', 'deepcopy_resize'):
-        for c in sorted({fxm.lo, fxm.hi, 1, -1 if fxm.signed else 2}):
+        for c in sorted({fxm.lo, fxm.hi, 1, -1 if fxm.signed else 2, fxm.hi - 1, (fxm.hi + 1) // 2 if not fxm.signed else fxm.lo + 1}):
             if not (fxm.lo <= c <= fxm.hi):
                 continue
-            case = {'part': part, 'history': True, 'fx': list(fxm), 'grow': grow, 'via': via, 'code': c}
+            case = {'part': part, 'history': True, 'fx': list(fxm), 'grow': grow, 'via': via, 'code': c, 'resign': resign}
             acc.evaluations += 4
             acc.transitions += 8
             acc.nontrivial += 1
@@ -205,23 +207,23 @@ def judge_history(acc, fxm, grow, part):
                 z0 = ~x
                 m0 = x & 1
                 if via == 'resize':
-                    x.resize(n_word=f2.n_word)
+                    x.resize(signed=f2.signed, n_word=f2.n_word)
                     y = x
                 elif via == 'like=':
-                    y = Fxp(x, like=x, n_word=f2.n_word)
+                    y = Fxp(x, like=x, signed=f2.signed, n_word=f2.n_word)
                 else:
                     y = x.deepcopy()
-                    y.resize(n_word=f2.n_word)
+                    y.resize(signed=f2.signed, n_word=f2.n_word)
                 got = (codes(~y), codes(y & 5), codes(y | 5), codes(y ^ 5), fmt_of(~y))
             except Exception as e:
-                acc.violation('exception', case, '%s widened by %d via %s raised %r' % (fxm.dtype, grow, via, e), {'part': part, 'aspect': 'history'})
+                acc.violation('exception', case, '%s changed to %s via %s raised %r' % (fxm.dtype, f2.dtype, via, e), {'part': part, 'aspect': 'history'})
                 continue
             n2 = f2.n_word
-            pc = pat(c, n2)
+            pc = pat(min(max(c, f2.lo), f2.hi), n2)
             exp = ([unpat(pc ^ ((1 << n2) - 1), f2)], [unpat(pc & 5, f2)], [unpat(pc | 5 % (1 << n2), f2)], [unpat(pc ^ 5 % (1 << n2), f2)], f2)
             if got != exp:
-                acc.violation('history', case, '%s code %d: ~x, then widened to %d bits via %s: (~, &5, |5, ^5) = %s, expected %s'
-                              % (fxm.dtype, c, n2, via, got[:4], exp[:4]), {'part': part, 'aspect': 'history'})
+                acc.violation('history', case, '%s code %d: ~x, then changed to %s via %s: (~, &5, |5, ^5) = %s, expected %s'
+                              % (fxm.dtype, c, f2.dtype, via, got[:4], exp[:4]), {'part': part, 'aspect': 'history'})
             else:
                 acc.outcome('history_ok')
 
@@ -300,7 +302,7 @@ def bounds(tier, seed):
                            'and either signedness (n_frac(y) in {0, n_word}) x n_frac(x) in 0..n_word x {&,|,^}; int masks on either side; ~ with '
                            'involution and -x-LSB; De Morgan on all code pairs (n_word<=%d)' % (k, 3 if tier == 'quick' else 4, 3 if tier == 'quick' else 4),
             'wide': 'n_word in %s: boundary + walking-bit + seed codes x 8 y codes / masks' % (WIDE_WORDS,),
-            'histories': '~x, then the object / a like= derivative / a deep copy widened by 1, 2, 5 bits, then ~ & | ^ again; 2-d operands in C, transposed, '
+            'histories': '~x, then the object / a like= derivative / a deep copy widened by 1, 2, 5 bits or given the other signedness at the same / one more bit, then ~ & | ^ again; 2-d operands in C, transposed, '
                          'Fortran and reversed-view layouts',
             'rejection': 'all ordered pairs of different word lengths 1..8 x signedness mixes x {&,|,^}', 'seed': seed}
 
@@ -378,6 +380,8 @@ def run_shard(sh):
             if nw >= 3 and nf in (0, nw):
                 for grow in (1, 2, 5):
                     judge_history(acc, fxm, grow, 'S')
+                for grow in (0, 1):
+                    judge_history(acc, fxm, grow, 'S', resign=True)
                 judge_2d(acc, fxm, 'S')
     elif sh['part'] == 'W':
         nw = sh['nw']
@@ -426,7 +430,7 @@ def replay(case):
         judge_arrays(acc, Fmt(*case['fx']), Fmt(*case['fy']), case['xs'], case['ys'], case['op'], case['arrays'], case['part'], case.get('by', 'raw'))
         return acc.violations
     if case.get('history'):
-        judge_history(acc, Fmt(*case['fx']), case['grow'], case['part'])
+        judge_history(acc, Fmt(*case['fx']), case['grow'], case['part'], case.get('resign', False))
         return [v for v in acc.violations if v['case'].get('via') == case['via'] and v['case'].get('code') == case['code']]
     if case.get('twod'):
         judge_2d(acc, Fmt(*case['fx']), case['part'])
